@@ -5,7 +5,8 @@ ID = "C01"
 LEVEL = "model_checking"
 RULE = ("all rooted DAG shapes x dep listing orders x task kinds (run_command/run_experiment/group/combine) x parallelizable flags "
         "x --jobs 1..3 x single failing task, each explored under the virtual kernel over every completion order (deviation 0) and "
-        "every exit batching/delivery deviation up to the bound (also with one of the tasks in flight failing); monitor on the kernel event log: every execution of every "
+        "every exit batching/delivery deviation up to the bound (also with one of the tasks in flight failing; also with a non-task child of cond "
+        "exiting; also with experiments satisfied by cached versions while a task below them runs again and fails); monitor on the kernel event log: every execution of every "
         "transitive dependency exited 0 before the dependent starts, no dependency starts after its dependent; distinct = "
         "distinct (case, terminal event order)")
 ASSUMPTIONS = [
@@ -86,6 +87,25 @@ def items(tier):
                 for un in (True, 5 << 8):
                     add({"g": g, "kinds": ["cmd"] * n, "pars": [jobs > 1] * n, "jobs": jobs, "fails": {str(f): ["exit", 10 + f]}, "unrelated": un},
                         1 if tier == "quick" else 2)
+    # G: cache states - some experiments are satisfied by a recorded version (their operations are pruned from the plan) while a
+    # task they depend on runs again and fails / runs in parallel: the remaining edges must still order and guard everything
+    import itertools as _it
+    for g in list(rungrid.graphs_upto((3,))) + list(rungrid.graphs_upto((4,), shared_only_from=4)):
+        n = len(g)
+        for kinds in _it.product(("cmd", "exp"), repeat=n):
+            exps = [i for i in range(1, n) if kinds[i] == "exp"]
+            cmds = [i for i in range(1, n) if kinds[i] == "cmd"]
+            if not exps or not cmds:
+                continue
+            if n == 4 and tier == "quick" and (len(exps) != 1 or sum(len(d) for d in g) > 5):
+                continue
+            for r in range(1, len(exps) + 1):
+                for cached in _it.combinations(exps, r):
+                    for f in cmds:
+                        for jobs in (1, 2):
+                            add({"g": g, "kinds": list(kinds), "pars": [jobs > 1] * n, "jobs": jobs, "fails": {str(f): ["exit", 3]},
+                                 "cached": list(cached), "empty_index": True}, 0)
+                    add({"g": g, "kinds": list(kinds), "pars": [True] * n, "jobs": 2, "fails": {}, "cached": list(cached), "empty_index": True}, 0)
     if tier == "thorough":
         for g in rungrid.graphs_upto((5,)):
             out.append({"case": {"g": g, "kinds": ["cmd"] * 5, "pars": [True, True, False, True, True], "jobs": 2, "fails": {}}, "bound": 0})
